@@ -7,5 +7,9 @@ cd "$(dirname "$0")"
 mkdir -p bin evidence replays
 if [ -f vlib/oracle_cmd.c ]; then
   gcc -O2 -o bin/oracle_cmd vlib/oracle_cmd.c || echo "warning: gcc failed; python oracle will be used"
+  # the command and the cross-check command: different programs, same file name
+  mkdir -p bin/main bin/cc
+  gcc -O2 -DONLY_ROLE='"main"' -o bin/main/oracle_cmd vlib/oracle_cmd.c || true
+  gcc -O2 -DONLY_ROLE='"cc"' -o bin/cc/oracle_cmd vlib/oracle_cmd.c || true
 fi
 echo setup done
